@@ -114,8 +114,8 @@ func VerifC05HandleData() {
 	if verifIsSymbolic() {
 		verifTick(flushTicker)
 		verifSettle()
-		verifAssert(verifCatEq(st.log, nil, want, nil), "after-flush-all-at-endpoint")
-		verifAssert(c.buffered.n == 0, "after-flush-buffer-empty")
+		verifAssert(verifCatEq(st.log, nil, want, nil), "structural/after-flush-all-at-endpoint")
+		verifAssert(c.buffered.n == 0, "structural/after-flush-buffer-empty")
 	}
 	verifCover("end")
 }
